@@ -3,7 +3,7 @@
 use super::sess::{self, Plan};
 use crate::sim::analysis::Analysis;
 use crate::sim::session::{Outcome, Scenario};
-use crate::sim::world::{EvKind, ReplyKind};
+use crate::sim::world::{EvKind, ReplyKind, SegPolicy};
 use crate::util::acc::Acc;
 use crate::util::json::J;
 use crate::util::Cfg;
@@ -86,6 +86,22 @@ impl Property for C04 {
             } else {
                 crate::sim::world::Fault::ReadErrAfter(sc.world.greeting.len() as u64 + crate::util::rng::mix(&[cfg.seed, k]) % 120)
             };
+            if k / 9 % 3 == 2 {
+                // a transient read error (Interrupted) somewhere inside the idle replies of a session WITHOUT callers:
+                // the client may give up (events = a prefix) or carry on (events = everything), but it must not lose
+                // the lines read before the error and deliver the rest
+                sc.callers.clear();
+                sc.drop_handles_at = None;
+                sc.notifications = vec![
+                    (std::time::Duration::from_millis(10), vec!["player".into(), "mixer".into(), "zone_b".into()]),
+                    (std::time::Duration::from_millis(30), vec!["database".into(), "update".into(), "frobnicator".into(), "output".into()]),
+                    (std::time::Duration::from_millis(50), vec!["sticker".into()]),
+                ];
+                sc.world.idle_seg = vec![[SegPolicy::PerLine, SegPolicy::PerByte, SegPolicy::Random(3), SegPolicy::Whole][(k / 27 % 4) as usize].clone()];
+                sc.world.idle_chunk_delay = vec![std::time::Duration::from_millis(k / 108 % 2)];
+                sc.world.fault = crate::sim::world::Fault::ReadInterruptedOnceAfter(sc.world.greeting.len() as u64 + crate::util::rng::mix(&[cfg.seed, k, 7]) % 130);
+                acc.inc("sessions_with_one_interrupted_read_inside_idle_replies");
+            }
             let out = sess::run(&sc);
             acc.inc("evaluations");
             acc.inc("sessions_ending_in_a_fault");
@@ -152,7 +168,7 @@ impl Property for C04 {
         floors.push(("fault_sessions_events_checked".into(), 50));
         Meta {
             level: "exploration",
-            rule: "same session engine and scenarios as C05 with denser notification schedules (1-6 changes per reply over the 14 documented names, unknown names incl. case variants and a 230-byte name, duplicates under list semantics, changes while a request is in flight, inside the re-idle window, while noidle is in transit, idle replies chopped per line / per byte with delays so that requests arrive between and inside `changed:` lines); oracle: the sequence of SubsystemChange events (as_str) from ConnectionEvents::next must equal the concatenation of the `changed:` lines of all idle/noidle replies the simulated server wrote and the transport completely delivered, checked at the quiescent end of the session (after a probe notification); plus sessions that end in a transport fault (failing write from the n-th write call on, read error after k bytes) over notification-heavy scripts, where every change of a reply the client completely read must still arrive; non-trivial = session with overlap (P1,P2,P6,P7,P9,P12) or a reply with >=2 changed lines; distinct by interleaving signature".into(),
+            rule: "same session engine and scenarios as C05 with denser notification schedules (1-6 changes per reply over the 14 documented names, unknown names incl. case variants and a 230-byte name, duplicates under list semantics, changes while a request is in flight, inside the re-idle window, while noidle is in transit, idle replies chopped per line / per byte with delays so that requests arrive between and inside `changed:` lines); oracle: the sequence of SubsystemChange events (as_str) from ConnectionEvents::next must equal the concatenation of the `changed:` lines of all idle/noidle replies the simulated server wrote and the transport completely delivered, checked at the quiescent end of the session (after a probe notification); plus sessions that end in a transport fault (failing write from the n-th write call on, read error after k bytes, and - in sessions without callers - ONE read failing with ErrorKind::Interrupted at a random offset inside chopped idle replies, after which the stream continues: the client may stop or carry on but must not deliver later changes of a reply whose earlier lines it lost) over notification-heavy scripts, where every change of a reply the client completely read must still arrive; non-trivial = session with overlap (P1,P2,P6,P7,P9,P12) or a reply with >=2 changed lines; distinct by interleaving signature".into(),
             nontrivial_set: "nontrivial",
             assumptions: vec![
                 "a reply may carry duplicates or unknown names (legal server output for the property's quantifier)".into(),
